@@ -34,7 +34,7 @@ def mutate_pager(src_path, dst_dir):
 def body(chk: core.Check):
     quick = chk.tier == "quick"
     chk.engines.add("CH (CrossHair 0.0.110 + z3)")
-    np_, ni = (3, 2) if quick else (4, 2)
+    np_, ni = (3, 2) if quick else (5, 2)
     t_pager = 120 if quick else 2400
     t_class = 300 if quick else 1200
     chk.bound("pages", np_)
